@@ -306,14 +306,22 @@ def handle : List String → String
         | some none => "-"
         | some (some k) => s!"k{hexOfBytes k}"))
     | _, _ => "bad-op"
-  | ["kblk", h, bl, ks, probes] =>
+  | ["kblk", kind, h, bl, ks, probes] =>
+    if kind != "void" && kind != "u64" && kind != "range" then "bad-op" else
     match bytesOfHex h, bl.toNat?, keyList ks, keyList probes with
     | some bs, some bl, some ks, some probes =>
+      let skip : List UInt8 → List UInt8 :=
+        if kind == "void" then id else if kind == "u64" then (fun p => (loadU64Mono p).2) else (fun p => (loadRange p).2)
       let d := build bl (ks.map (fun k => (k, 0)))
       let f := openFile bs
-      ";".intercalate (probes.map (fun k => match fileBlockForKey d.locateKey f k with
-        | none => "-"
-        | some a => s!"{a.firstOrd}:{a.start}:{a.stop}"))
+      ";".intercalate (probes.map (fun k =>
+        let a := match fileBlockForKey d.locateKey f k with
+          | none => "-"
+          | some a => s!"{a.firstOrd}:{a.start}:{a.stop}"
+        let h := match fileTermOrdOrNext d.locateKey skip f k with
+          | none => "Z"
+          | some h => showHit h
+        s!"{a}/{h}"))
     | _, _, _, _ => "bad-op"
   | ["bitpack", vs, ws] =>
     match valList vs, valList ws with
